@@ -109,6 +109,7 @@ pub fn gen_search_spec(rng: &mut Rng, m: &Model, pure_closures: bool) -> SearchS
         transpose: m.directed && rng.chance(1, 3),
         closure,
         mask: if closure == Closure::Filter { (rng.next_u64() & 0xffff) as u16 & (rng.next_u64() & 0xffff) as u16 } else { 0 },
+        query: closure != Closure::None && rng.chance(1, 3),
     }
 }
 
